@@ -14,11 +14,22 @@ Shares no code with tornado.  For any `str` the classifier answers
                         bare CR as separators, ignored leading/trailing whitespace) admits it.
     ("unspec", why)     everything in between: the property statement does not pin the verdict
                         (request-targets with characters outside RFC 3986 such as `"<>\\^`{|}`,
-                        `[`, `]`, `#`, a bare `%`, obs-text or non-latin-1 code points; targets that
+                        `[`, `]`, `#`, a bare `%` or obs-text octets; targets that
                         are not one of the four forms; lenient whitespace; HTTP versions other
                         than 1.x, which match HTTP-version but which an HTTP/1.x parser may refuse;
-                        a status line without the SP after the code; code points > U+00FF or
-                        VT/FF/CR inside a reason phrase).
+                        a status line without the SP after the code; VT/FF/CR inside a reason phrase).
+
+Code points above U+00FF (incl. lone surrogates) anywhere in the line are MUST-REJECT.  The RFC 9112
+grammar is defined over octets (§2.2: a message is parsed "as a sequence of octets"; every terminal of
+request-line / status-line is an octet range: tchar, DIGIT, SP, VCHAR, obs-text = %x80-FF, ...).  A `str`
+handed to the parsers denotes octets one code point per octet (latin-1: that is how tornado's HTTP/1
+connection produces these strings, and the only denotation under which `obs-text` U+0080-U+00FF is one
+octet each).  A code point above U+00FF denotes no octet, so no line containing one is derivable from
+any production - neither the strict ones nor the robustness readings of §3 ¶3 / §4 ¶3, whose whitespace
+set is SP / HTAB / VT / FF / CR only (U+2028, U+3000, U+2003 ... are not whitespace there).  The
+UNSPECIFIED leniencies above are about which *octets* a lenient parser may additionally take; they do
+not extend the alphabet.  "Accept exactly the grammar and raise HTTPInputError otherwise" therefore pins
+rejection.
 
 "DIGIT" is ASCII 0-9 only; all classes are spelled out so that Unicode digits/spaces never match.
 """
@@ -89,7 +100,26 @@ def strict_target(t: str) -> str | None:
     return None
 
 
+_NON_OCTET = re.compile("[^\x00-\xff]")
+NON_OCTET_WHY = "code point above U+00FF denotes no octet"
+
+
 def classify_request_line(s: str):
+    verdict, info = _classify_request_line_octets(s)
+    if verdict == "unspec" and _NON_OCTET.search(s):
+        # (lines rejected for another reason keep that reason)
+        return "reject", NON_OCTET_WHY
+    return verdict, info
+
+
+def classify_status_line(s: str):
+    verdict, info = _classify_status_line_octets(s)
+    if verdict == "unspec" and _NON_OCTET.search(s):
+        return "reject", NON_OCTET_WHY
+    return verdict, info
+
+
+def _classify_request_line_octets(s: str):
     parts = s.split(" ")
     if len(parts) == 3:
         method, target, version = parts
@@ -115,10 +145,10 @@ def classify_request_line(s: str):
     return "unspec", "request-target outside the RFC 3986 forms"
 
 
-def classify_status_line(s: str):
+def _classify_status_line_octets(s: str):
     m = _STRICT_STATUS.fullmatch(s)
     if m:
         return "accept", (m.group(1), int(m.group(2)), m.group(3))
     if _LOOSE_STATUS.fullmatch(s):
-        return "unspec", "lenient whitespace / non-1.x version / non-octet reason"
+        return "unspec", "lenient whitespace / non-1.x version / reason with VT, FF or CR"
     return "reject", "not a status-line under any reading"
